@@ -355,7 +355,8 @@ def execute(ex: Execution, pname: str, backend: str, crash_at: int | None, netwo
     loop2 = VLoop()
     loop2.vt = vt
     obs: dict[str, Any] = {}
-    with EngineExec(ex, RunConfig(max_actions=120, allow_time=False), loop=loop2) as e2:
+    # (with a write fault the server's own backoff has to elapse before it writes again, so time may pass there)
+    with EngineExec(ex, RunConfig(max_actions=120, allow_time=restart_fault), loop=loop2) as e2:
         ticks = _persisted_ticks(loop2, store2, "run1")
         ended = any(_is_terminal_tick(td, pname) for td in ticks)
         h_at_crash = _handler(loop2, store2)
